@@ -338,3 +338,12 @@ pub open spec fn sys_topic_tracks(s: System, sid: Identifier, tid: Identifier) -
 pub open spec fn sys_groups_wf(s: System) -> bool {
     forall|k: u32, tid: Identifier| s.streams@.contains_key(k) ==> topic_groups_wf(#[trigger] stream_topic(s.streams@[k], tid))
 }
+
+// ConsumerGroup::get_members (the real accessor: `self.members.values().collect()`; proved as a getter in unit codec_responses):
+// offered on the stand-in so that an edit testing the member list is decided by the clauses (seed C08_4). One entry per member.
+impl ConsumerGroup {
+    #[verifier::external_body]
+    pub fn get_members(&self) -> (r: Vec<&ConsumerGroupMember>)
+        ensures r@.len() == self.members@.dom().len(),
+    { unimplemented!() }
+}
